@@ -152,3 +152,81 @@ func c18Embedded(c *Ctx, n int) {
 		res.Case(fmt.Sprintf("E|%s|%s|%v", entry, ext, layersOf), len(file) > 0, cs)
 	}
 }
+
+// ---------- ConfigPath says "there is a file" and names the empty path ----------
+//
+// `return c.Path, true` with an unset Path is the degenerate but legal answer ("", true).  Whatever ez makes of it -
+// an error is what the unchanged code returns - it must not hand out a Dials whose config was never verified: every
+// successful return of an ez entry point has gone through EnableVerification (C09: the delay ez asked for is lifted
+// before it returns; C18: Verify runs on the fully stacked config and its failure is the entry point's error).
+
+type c18PCfg struct {
+	Limit int `dials:"plimitq"`
+	calls *int
+}
+
+func (c *c18PCfg) ConfigPath() (string, bool) { return "", true }
+
+var errC18PInvalid = errors.New("c18p: limit must be positive")
+
+func (c *c18PCfg) Verify() error {
+	if c.calls != nil {
+		*c.calls++
+	}
+	if c.Limit <= 0 {
+		return errC18PInvalid
+	}
+	return nil
+}
+
+func c18EmptyPath(c *Ctx, n int) {
+	r := c.RNG
+	res := c.Res
+	for i := 0; i < n; i++ {
+		entry := []string{"YAMLConfigEnvFlag", "JSONConfigEnvFlag", "TOMLConfigEnvFlag", "CueConfigEnvFlag", "FileExtensionDecoderConfigEnvFlag"}[r.Intn(5)]
+		valid := r.Bool()
+		calls := 0
+		defaults := &c18PCfg{calls: &calls}
+		if valid {
+			defaults.Limit = 1 + r.Intn(100)
+		}
+		watch := r.Chance(30)
+		cs := map[string]any{"stream": "ConfigPath returns (\"\", true)", "entry": entry, "defaults_valid": valid, "watch": watch}
+		fs, ferr := dflag.NewSetWithArgs(dflag.DefaultFlagNameConfig(), &c18PCfg{}, nil)
+		if ferr != nil {
+			res.Add(Finding{Kind: "violation", What: "empty-path stream: cannot build the flag set: " + ferr.Error(), Case: cs})
+			continue
+		}
+		ctx, cancel := context.WithCancel(context.Background())
+		params := ez.Params[c18PCfg]{FlagSource: fs, WatchConfigFile: watch}
+		var d *dials.Dials[c18PCfg]
+		var err error
+		pn := catch(func() {
+			switch entry {
+			case "YAMLConfigEnvFlag":
+				d, err = ez.YAMLConfigEnvFlag(ctx, defaults, params)
+			case "JSONConfigEnvFlag":
+				d, err = ez.JSONConfigEnvFlag(ctx, defaults, params)
+			case "TOMLConfigEnvFlag":
+				d, err = ez.TOMLConfigEnvFlag(ctx, defaults, params)
+			case "CueConfigEnvFlag":
+				d, err = ez.CueConfigEnvFlag(ctx, defaults, params)
+			default:
+				d, err = ez.FileExtensionDecoderConfigEnvFlag(ctx, defaults, params)
+			}
+		})
+		res.Count("empty-path/" + map[bool]string{true: "error", false: "success"}[err != nil])
+		switch {
+		case pn != "":
+			res.Add(Finding{Kind: "violation", What: "ez entry point panicked: " + pn, Case: cs})
+		case err == nil && d != nil:
+			if calls == 0 {
+				res.Add(Finding{Kind: "violation", What: "ez returned a Dials without ever calling Verify: the verification it delayed was never switched on", Case: cs})
+			} else if verr := d.View().Verify(); verr != nil {
+				res.Add(Finding{Kind: "violation", What: "ez returned a Dials whose config does not verify: " + verr.Error(), Case: cs})
+			}
+		}
+		cancel()
+		res.Case(fmt.Sprintf("P|%s|%v|%v", entry, valid, watch), true, cs)
+	}
+}
